@@ -17,7 +17,8 @@
 (* Meaning of a well-formed block: a graph with exactly the listed edges   *)
 (* and weights, id = text of the first header, one subpath constraint per  *)
 (* DISTINCT S-line with at least 2 nodes (its consecutive pairs), n and m  *)
-(* = node and edge counts.  A block with a malformed edge line (2 or 4     *)
+(* = node and edge counts (a block with count 0 is the empty graph: no     *)
+(* edges, an EMPTY list of constraints, counts not stored).  A block with a malformed edge line (2 or 4     *)
 (* fields), a non-numeric weight or vertex count (also an integer followed *)
 (* by another token), or a constraint edge                                 *)
 (* that is not in the graph makes read_graphs raise ValueError.            *)
@@ -30,8 +31,9 @@ Shapes == <<
   << <<"a", "b", 5>>, <<"b", "c", 3>>, <<"b", "d", 2>> >>,                      \* DAG
   << <<"s", "a", 2>>, <<"a", "b", 4>>, <<"b", "a", 2>>, <<"b", "t", 2>> >>,     \* with a cycle
   << <<"0", "1", 7>> >>,                                                       \* single edge, numeric names
-  << <<"x", "y", 1>>, <<"x", "z", 1>>, <<"y", "w", 1>>, <<"z", "w", 1>> >> >>   \* diamond
-ConsOf(sh) == CASE sh = 1 -> <<"a", "b", "c">> [] sh = 2 -> <<"s", "a", "b">> [] sh = 3 -> <<"0", "1">> [] sh = 4 -> <<"x", "y", "w">>
+  << <<"x", "y", 1>>, <<"x", "z", 1>>, <<"y", "w", 1>>, <<"z", "w", 1>> >>,    \* diamond
+  << >> >>                                                                     \* the empty graph: count line 0, no edge lines
+ConsOf(sh) == CASE sh = 5 -> <<>> [] sh = 1 -> <<"a", "b", "c">> [] sh = 2 -> <<"s", "a", "b">> [] sh = 3 -> <<"0", "1">> [] sh = 4 -> <<"x", "y", "w">>
 
 Corruptions == {"none", "edge_2_fields", "edge_4_fields", "weight_not_numeric", "count_not_numeric", "count_trailing_token",
                 "constraint_absent_edge"}
@@ -41,6 +43,8 @@ Separators == {"space", "tab"}        \* the field separator of S-lines and edge
 (* nhead: 1 one header line with text, 2 two of them, 3 a bare "#" followed by a header line with text, 4 a bare "#" only *)
 BlockDescs == [shape : 1..Len(Shapes), nhead : 1..4, cons : ConsKinds, blanks : 0..2, extra : BOOLEAN, corr : Corruptions,
                sep : Separators]       \* blanks: 0 none, 1 a blank line before the count line, 2 a blank line inside the edge list
+(* the empty graph comes plain: no S-lines, no corruption, no blank line inside an edge list that does not exist *)
+EmptyOK(b) == Shapes[b.shape] = <<>> => (b.cons = "none" /\ b.corr = "none" /\ b.blanks # 2)
 Sep(b) == IF b.sep = "tab" THEN "\t" ELSE " "
 
 RECURSIVE JoinSp(_, _)
@@ -90,6 +94,6 @@ Meaning(b, idtxt) ==
    n |-> Cardinality(NodesOf(edges)), m |-> Len(edges)]
 IsCorrupt(b) == b.corr # "none"
 (* the constraint "absent edge" line u v reversed is absent unless the reverse edge exists (shape 2 has a<->b) *)
-WellDefined(b) == b.corr = "constraint_absent_edge" =>
-                    ~\E i \in 1..Len(Shapes[b.shape]) : Shapes[b.shape][i][1] = Shapes[b.shape][1][2] /\ Shapes[b.shape][i][2] = Shapes[b.shape][1][1]
+WellDefined(b) == EmptyOK(b) /\ (b.corr = "constraint_absent_edge" =>
+                    ~\E i \in 1..Len(Shapes[b.shape]) : Shapes[b.shape][i][1] = Shapes[b.shape][1][2] /\ Shapes[b.shape][i][2] = Shapes[b.shape][1][1])
 =============================================================================
